@@ -92,11 +92,16 @@ InRange(v, a, ia, b, ib) ==
   /\ IF ia THEN SLeq(a, v) ELSE SLess(a, v)
   /\ IF ib THEN SLeq(v, b) ELSE SLess(v, b)
 
-StepInit ==
-  /\ min0 \in Values /\ max0 \in Values
-  /\ curMin = min0 /\ curMax = max0 /\ lvl = 0 /\ emitted = <<>> /\ pc = "pair"
-PairNext == UNCHANGED vars
-PairSpec == StepInit /\ [][PairNext]_vars
+(* The pair (min0, max0) is chosen in two steps so that TLC's workers share *)
+(* the pairs; the pair invariants speak about states with pc = "pair".     *)
+PairInit ==
+  /\ min0 \in Values /\ max0 = min0
+  /\ curMin = min0 /\ curMax = max0 /\ lvl = 0 /\ emitted = <<>> /\ pc = "first"
+PairNext ==
+  /\ pc = "first" /\ pc' = "pair"
+  /\ max0' \in Values
+  /\ UNCHANGED <<min0, curMin, curMax, lvl, emitted>>
+PairSpec == PairInit /\ [][PairNext]_vars
 
 (* the two guards (`!= MaxInt64', `!= MinInt64') leave exactly one corner  *)
 (* where stepping is impossible; no value can be exclusive-below MaxInt64's *)
@@ -132,6 +137,9 @@ FloatInvolution == SortableToFloat(FloatToSortable(min0)) = min0
 FloatMonotone ==
   FloatOrdinary(min0) /\ FloatOrdinary(max0) =>
     (FloatLess(min0, max0) <=> SLess(FloatToSortable(min0), FloatToSortable(max0)))
+FloatDigits ==
+  /\ FloatLessD(min0, max0) <=> FloatLess(min0, max0)
+  /\ FloatLeqD(min0, max0) <=> FloatLeq(min0, max0)
 FloatEdges ==
   LET w == ToBits(min0)
       PInf == FromBits([i \in 1..W |-> IF i \in 2..(FE+1) THEN 1 ELSE 0])
